@@ -1011,6 +1011,11 @@ func Gen(profile string, seed uint64, thorough bool) *Scenario {
 	}
 	scn := g.base(profile, seed, &b)
 	scn.TZMin = pick(g, 0, 0, -300, 540, 345, -720)
+	if profile == "placement" && g.chance(40) {
+		// the upstream transport is net/http's with MaxConnsPerHost: a response the cache neither hands on nor
+		// closes keeps its connection, and a later exchange waits for it
+		scn.MaxConns = pick(g, 1, 1, 2)
+	}
 	if profile == "sie" {
 		for i := range scn.Resources {
 			for k := range scn.Resources[i].Plans {
